@@ -299,6 +299,59 @@ class B:
                         return self.origin(t['args'][0], depth + 1, through_calls)
             return ('call', r or g, bb, ())
 
+    # ------------------------------------------------------- forward slice ---
+    def _op_locals(self, op):
+        if op is None or op['k'] not in ('cp', 'mv'):
+            return []
+        out = [op['pl']['l']]
+        for e in op['pl'].get('p') or []:
+            if isinstance(e, dict) and 'idx' in e:
+                out.append(e['idx'])
+        return out
+
+    def _rv_locals(self, rv):
+        k = rv['k']
+        if k in ('use', 'cast', 'repeat'):
+            return self._op_locals(rv['op'])
+        if k in ('ref', 'rawptr', 'discr'):
+            return [rv['pl']['l']]
+        if k == 'bin':
+            return self._op_locals(rv['a']) + self._op_locals(rv['b'])
+        if k == 'un':
+            return self._op_locals(rv['a'])
+        if k == 'agg':
+            out = []
+            for o in rv['ops']:
+                out += self._op_locals(o)
+            return out
+        return []
+
+    def derived_locals(self, seeds):
+        """Forward slice: locals whose value is computed from (or refers to) a seed local,
+        through assignments and calls (every call propagates arguments -> destination; a call
+        taking `&mut x` of a derived... is ignored).  Coarse taint, intraprocedural."""
+        derived = set(seeds)
+        changed = True
+        while changed:
+            changed = False
+            for blk in self.blocks:
+                for st in blk['s']:
+                    if st['k'] == '=' and st['pl']['l'] not in derived:
+                        if any(l in derived for l in self._rv_locals(st['rv'])):
+                            derived.add(st['pl']['l'])
+                            changed = True
+                t = blk['t']
+                if t['k'] == 'call' and t['dst']['l'] not in derived:
+                    ls = []
+                    for a in t['args']:
+                        ls += self._op_locals(a)
+                    if any(l in derived for l in ls):
+                        derived.add(t['dst']['l'])
+                        changed = True
+                if t['k'] == 'yield':
+                    pass
+        return derived
+
     # ---------------------------------------------------------- booleans ---
     def bool_source(self, op, depth=0):
         """Trace a bool operand through Not/copies: returns (origin_def, negated)
